@@ -24,14 +24,14 @@ CHECKS = {
     "C01": (
         True,
         "Lean 4 model of Field/Line text rendering and parsing with exact IEEE/decimal arithmetic (round, format, float(), int(), strftime/strptime) + decidable Spec.C01.holds evaluated on model and implementation + differential correspondence on structured layouts and float boundary families",
-        "Spec.C01.holds states the round trip (read-back = canonical values, re-written text identical, floats in the configured notation/separator, half-unit accuracy in exact arithmetic under |x|*10^D<2^51, maximal decimals). The theorems in Props/C01.lean cover the per-kind laws proved so far (see evidence.coverage.theorems); the statement is checked on every generated case against both the exact model and the real code, including layouts built through setter histories.",
-        "Trusted: Lean kernel; hand-written model lean/Cfi/{Text,PyInt,Dbl,Date,Field,Line}.lean validated against CPython on every case; float stability for all doubles is checked by correspondence, proved only for the clauses listed in the evidence.",
+        "Spec.C01.holds states the round trip (read-back = canonical values, re-written text identical, floats in the configured notation/separator, half-unit accuracy in exact arithmetic under |x|*10^D<2^51, maximal decimals). Theorems: per-kind render/parse laws for integers, literals, dates (strptime after strftime = truncation to the format, all regex alternatives and backtracking: Proofs/DateLaw*.lean) and missing values; layout theorem (every span of a disjoint layout holds its field's rendering); Props.C01.readBack_of_inDomain (every layout/value list admitted by the decidable domain reads back to the canonical form: integers, literals, floats, dates, missing) and Props.C01.main_nofloat (the whole statement, stability included, for layouts without non-missing floats). Float stability and the accuracy clauses are evaluated per case against the exact model and the real code.",
+        'Trusted: Lean kernel; hand-written model lean/Cfi/{Text,PyInt,Dbl,Date,Field,Line}.lean validated against CPython on every case; float stability / accuracy for all doubles is checked by correspondence only (named hypothesis RenderLaw, never an axiom).',
         "6/C01",
     ),
     "C02": (
         True,
         "Lean 4 proof of the splice theorem (any alphabet, any target line) and of the single-field write statement + exhaustive small-space correspondence (kinds x size 0-6 x start 0-6 x target length 0-14 x value widths) against Field.write / Line.write",
-        "Theorems Props.C02.splice_spec (length, untouched prefix/suffix, span = value, position-wise), field_write_basic (missing values, literals, integers: full statement for every width/start/target), field_write_of_raw (floats/dates given the character shape of the rendering), field_write_bin (bytes), defaults (documented default geometry = constants regenerated from the code; a changed default breaks the build). Exhaustive enumeration of the small space every run.",
+        'Theorems Props.C02.splice_spec (length, untouched prefix/suffix, span = value, position-wise), field_write_basic (missing values, literals, integers: full statement for every width/start/target), field_write_of_raw (floats/dates given the character shape of the rendering), field_write_bin (bytes), line_shape / line_spans and line_bin_shape / line_bin_spans (whole text and binary lines of any disjoint layout: length = furthest field end (+ newline), blank gaps, every rendering in its own span), defaults (documented default geometry = constants regenerated from the code; a changed default breaks the build). Exhaustive enumeration of the small space every run; a user sub-subclass extending the numeric type table is checked structurally (mode field_struct).',
         "Trusted: Lean kernel + standard axioms; model lean/Cfi/Field.lean tied by the correspondence; Generated.lean is regenerated from the code each run.",
         "6/C02",
     ),
@@ -45,14 +45,14 @@ CHECKS = {
     "C09": (
         True,
         "Lean 4 model of numpy's little-endian integer and IEEE binary16/32/64 encodings (exact nearest-even narrowing) + Spec.C09.holds + exhaustive correspondence over all int16 values and all float16 patterns every run",
-        "Spec.C09.holds: length = furthest field end, blank gaps, each field's bytes in its span, read-back = exact ints / floats rounded to the IEEE width / stripped literals / truncated dates / zero and blank for missing. Theorems Props.C09: byte-level bijection leBytes/ofLeBytes (all widths); the remaining per-kind theorems are listed in the evidence as they are completed.",
+        "Theorems: integer bijection for every width (decode_encode, encode_decode), widths (table regenerated from the code), Props.C09.line_main (the whole of Spec.C09.holds — record width, blank gaps, every field's bytes in its own span, canonical read-back — for every disjoint layout under the per-field binary law BinLaw), BinLaw proved for in-range integers, ASCII literals and missing values. BinLaw for floats (IEEE narrowing, bit-field inverse), non-ASCII literals and dates: evaluated per case; all 65 536 float16 / int16 patterns every run.",
         "Trusted: Lean kernel; model lean/Cfi/Bin.lean compared with numpy on every case (all 2-byte patterns exhaustively, halfway cases, subnormals, overflow); little-endian byte order asserted at start-up.",
         "6/C09",
     ),
     "C11": (
         True,
         "Lean 4 proof that a delimited read is a function of its own line (no carry-over, one value per field, absent tokens None, surplus ignored) + differential correspondence on write/read/padded-read and on read sequences through one Line and through RegisterFile.read",
-        "Theorems Props.C11.no_carry, length_readDelim, go_missing, go_getElem. Spec.C11.holds (written = trimmed renderings joined by the delimiter; read-back canonical; padding irrelevant; every read of a sequence equals the model's read of that line alone) is evaluated on every case.",
+        "Theorems Props.C11.split_join (split after join is the identity on delimiter-free tokens, any multi-character delimiter), writeDelim_eq, read_written, main (the whole of Spec.C11.holds: written text, token-wise canonical read-back, blank padding irrelevant, no carry-over) under the per-token law TokLaw (proved for integers, literals, dates, missing values) on the sub-domain 'no character of the delimiter in a token'; the rest of the property's domain (no rendering contains the delimiter as a substring) and float tokens are evaluated per case on model and implementation.",
         "Trusted: Lean kernel; model lean/Cfi/Line.lean; for multi-character delimiters the domain guard is stronger than the property's wording (no character of the delimiter in a rendering).",
         "6/C11",
     ),
@@ -65,23 +65,23 @@ CHECKS = {
     ),
     "C05": (
         True,
-        "Lean 4 model of register file write and read + Spec.C05 (Unambiguous, canonical data, holds) + differential correspondence of write -> read -> == on generated definitions and data sequences",
-        "Spec.C05.holds (re-read == placeholder + D in count, classes, data, order; file-level == agrees) and holdsSkipEmpty (all-None registers produce no output, falsy values are kept) are evaluated on every case on the implementation and on the model. Theorems Props.C05 (empty_writes_nothing and the falsy-value facts; the round-trip theorem is staged on the C01 per-kind laws).",
+        'Lean 4 proof of the file-level round trip on the model (main, skip_empty) + decidable domain and statement evaluated on model and implementation + differential correspondence on generated register files (in memory and through paths)',
+        "Theorem Props.C05.main: for every register list and every element sequence inside the decidable domain Spec.C05.inDomain (the predicate the check evaluates per case), the model's write-then-read cycle returns the sequence itself and the file equality holds — composite register line, column characterisation, one line per register, dispatch to the writing type, line splitting of the written text, order and count are proved for all inputs; the per-record premise (the data-only line reads back to the data: C01) is part of the domain and decided by the model per case for float/date fields. Props.C05.skip_empty: all-None registers leave no trace. A quarter of the cases go through paths on disk with a declared encoding.",
         "Trusted: Lean kernel; model; the domain (Unambiguous identifiers, canonical fitting data) is decided by the Lean predicate Spec.C05.inDomain, discards counted in the evidence.",
         "6/C05",
     ),
     "C06": (
         True,
-        "Lean 4 model W.R of register files + Spec.C06.holds (fixed point, default lines verbatim and in order) with the precondition evaluated per case by the reference specification + differential correspondence on perturbed contents",
-        "Spec.C06.holds: y = W(R x) satisfies W(R y) = y byte for byte and the lines of x matching no register are exactly the non-matching lines of y in order; contents produced by a write are reproduced exactly. Representable(x) is evaluated by the model's parse of x per case.",
+        'Lean 4 proof of the projection property on the model + decidable statement evaluated on model and implementation + differential correspondence on perturbed contents',
+        'Theorems Props.C06.main (for every text x, W(R(x)) is a fixed point of read-then-write and the lines matching no register are the same in x and y, in order — from record-level stability of the typed records of x), recStable_of_laws (record stability from the C01 per-field laws) and main_int_lit (no premise about the records left for files of integer/literal registers). Records with float/date fields: the premise is evaluated per case by the exact model; the statement is evaluated on every generated text on model and implementation, in memory and through paths.',
         "Trusted: Lean kernel; model; representability and unambiguity are decided by Lean predicates.",
         "6/C06",
     ),
     "C10": (
         True,
         "Lean 4 model of Register.write/matches/read in the three storages over a stream + Spec.C10.holds (recognition, identifier columns, one line / exact byte width, canonical read-back, tell() = partial sums) + differential correspondence on streams of 1-8 mixed registers",
-        "Spec.C10.holds is evaluated on every generated stream for positional text, delimited text and binary storage on the implementation and on the model. Theorem Props.C10.recordSize_eq (the byte count requested equals identifier width + field widths).",
-        "Trusted: Lean kernel; model; contiguous binary layouts and ASCII identifiers (domain).",
+        "Theorems Props.C10.text_positional, text_delimited, text_mixed and binary: for every stream of registers in each storage the model's write-all / rewind / read-all run through one buffer satisfies the whole of Spec.C10.holds (one line resp. identifier width + field widths bytes, identifier columns / first token / bytes, recognised by its own type, canonical read-back, stream position after each read = end of what the write produced), under the per-field laws (proved for integers, literals, dates, missing values; floats: read half proved, binary law per case); binary contiguity is stated up to declaration order. Spec.C10.holds is evaluated on every generated stream on the implementation and on the model.",
+        'Trusted: Lean kernel; model; contiguous binary layouts (in any declaration order) and ASCII identifiers (domain).',
         "6/C10",
     ),
     "C12": (
@@ -108,7 +108,7 @@ CHECKS = {
     "C14": (
         True,
         "Lean 4 proof that what a line writes/reads is independent of the scratch slots of shared Field objects + metamorphic correspondence: every object's observations in a random interleaved history vs. an isolated replay of its own operations on the real code",
-        "Theorems Props.C14 (assign_overwrites, write_independent_of_slots, read_is_function_of_line; World-level locality theorems as listed in the evidence). On the implementation: random interleavings of construct / read / write / append / remove / data mutation over 2-4 registers and files whose classes share one Line or one Field; each object's observation sequence must equal that of its isolated replay; files constructed without arguments must not share their container, must equal File.read('') and write ''.",
+        "World model (class-level LINE objects with slots, registers, files) with non-interference theorems Props.C14.reg_noninterference, file_noninterference, new_files_independent, write_output_local, step_frame_reg/file; slot theorems assign_overwrites, write_independent_of_slots, read_is_function_of_line. The World model is run on every generated history and compared with the real classes; each object's observations in the interleaved run are compared with an isolated replay on the real code; default-constructor clauses in text and binary storage.",
         "Partial: Python aliasing (which expressions create new objects) is represented by hand in the model; the interleaving-vs-isolated comparison is impl-vs-impl and is what exercises it on the real code. Trusted: Lean kernel, harness.",
         "6/C14",
     ),
